@@ -129,6 +129,33 @@ def step (args0 : List String) : String :=
          let shown := (ops.zip outs).map fun (op, o) => showSeqOut op o
          s!"ok {String.intercalate "," shown} {toHex b.store}")
     | _, _, _, _ => "bad-op"
+  | ["vseq", st, t, defs, ops] =>
+    -- like `seq`, but `var.bits` is taken afresh for every step and `R=<int>` changes the raw
+    -- value by another path in between (`var.raw = …`): a fresh view always sees the current value
+    match parseStore st, t.toNat?, parseDefs defs with
+    | some sp, some t, some defs =>
+      let (store, s0) := storeOf sp t
+      let od : OdVar := ⟨t, 1, [], defs⟩
+      let run := (ops.splitOn "|").foldl (fun (acc : Option (Bytes × List String)) (o : String) =>
+        match acc with
+        | none => none
+        | some (s, outs) =>
+          if o.startsWith "R=" then
+            match (o.drop 2).toString.toInt? with
+            | some v => (match writeRaw t store s v with
+              | some s' => some (s', outs ++ ["ok"])
+              | none => some (s, outs ++ ["err"]))
+            | none => none
+          else match parseSeqOp o with
+            | some (.get k) => some (s, outs ++ [showOptInt (getBits od store s k)])
+            | some (.set k v) => (match setBits od store s k v with
+              | some s' => some (s', outs ++ ["ok"])
+              | none => some (s, outs ++ ["err"]))
+            | none => none) (some (s0, []))
+      (match run with
+       | some (s, outs) => s!"ok {String.intercalate "," outs} {toHex s}"
+       | none => "bad-op")
+    | _, _, _ => "bad-op"
   | ["desc", st, t, tbl, "get"] =>
     match parseStore st, t.toNat?, parseTbl tbl with
     | some sp, some t, some tbl =>
